@@ -262,9 +262,9 @@ def seq_len(interp, t: SeqT, path):
                 n = n + ops.base_len(b.base) * len(b.body.blocks[0].items)
             else:
                 c = ops.abs_const('len:' + canon(b), z3.IntSort(), 'len')
-                path.assume(c >= 0)
+                path.define(c >= 0)
                 ex = interp.exists_block(b, path)
-                path.assume((c > 0) == interp.zbool(ex))
+                path.define((c > 0) == interp.zbool(ex))
                 n = n + c
     return n
 
@@ -316,7 +316,10 @@ def str_index(interp, s, idx, path):
 
 def seq_index(interp, t: SeqT, idx, path):
     t = mkseq(t.blocks)
-    if isinstance(idx, int):
+    if isinstance(idx, int) and t.blocks and not isinstance(t.blocks[0 if idx >= 0 else -1], LitB) \
+            and interp.to_zseq(t) is not None:
+        pass      # directly indexable (below)
+    elif isinstance(idx, int):
         # concrete prefix/suffix
         if idx >= 0:
             k = idx
@@ -351,7 +354,7 @@ def seq_index(interp, t: SeqT, idx, path):
         ok = z3.And(i < n, i >= -n)
         if not path.branch(ok):
             interp.raise_builtin('IndexError', 'list index out of range')
-        pos = z3.simplify(z3.If(i >= 0, i, n + i))
+        pos = (i if isinstance(idx, int) and idx >= 0 else (n + i if isinstance(idx, int) else z3.If(i >= 0, i, n + i)))
         td = _elem_td(interp, t)
         return interp.wrap_elem(td, z[pos]) if td is not None else _wrap_by_sort(interp, z[pos])
     raise Unsupported('index into a symbolic sequence')
@@ -391,10 +394,10 @@ def _first_of_blocks(interp, blocks, path):
         if path.branch(ex):
             sk = path.fresh_const('first', z3.IntSort())
             path.add_index(sk)
-            path.assume(ops.in_range(b.base, sk))
+            path.define(ops.in_range(b.base, sk))
             inner_ne = interp.seq_nonempty(ops.subst(b.body, [(b.var, sk)]), path)
             g = b.guard if b.guard is True else z3.substitute(b.guard, (b.var, sk))
-            path.assume(interp.zbool(interp.and_(g, inner_ne)))
+            path.define(interp.zbool(interp.and_(g, inner_ne)))
             q = z3.Int(fresh_name('q'))
             gq = True if b.guard is True else z3.substitute(b.guard, (b.var, q))
             inner_q = interp.seq_nonempty(ops.subst(b.body, [(b.var, q)]), path)
@@ -427,10 +430,10 @@ def _last_of_blocks(interp, blocks, path):
         if path.branch(ex):
             sk = path.fresh_const('last', z3.IntSort())
             path.add_index(sk)
-            path.assume(ops.in_range(b.base, sk))
+            path.define(ops.in_range(b.base, sk))
             inner_ne = interp.seq_nonempty(ops.subst(b.body, [(b.var, sk)]), path)
             g = b.guard if b.guard is True else z3.substitute(b.guard, (b.var, sk))
-            path.assume(interp.zbool(interp.and_(g, inner_ne)))
+            path.define(interp.zbool(interp.and_(g, inner_ne)))
             body = ops.subst(b.body, [(b.var, sk)])
             return _last_of_blocks(interp, list(body.blocks), path)
         return _last_of_blocks(interp, blocks[:-1], path)
@@ -486,16 +489,22 @@ def do_slice(interp, obj, lo, hi, st, path):
         z = interp.to_zseq(t) if t.blocks else None
         if z is not None:
             n = z3.Length(z)
-            a = _norm_bound(lo, n, 0)
-            b = _norm_bound(hi, n, n)
-            sub = z3.SubSeq(z, a, z3.If(b - a > 0, b - a, z3.IntVal(0)))
+            if isinstance(lo, int) and lo >= 0 and hi is None:
+                # xs[k:]  ==  extract(xs, k, len - k)   (z3's extract yields the empty sequence when k > len)
+                sub = z3.SubSeq(z, z3.IntVal(lo), n - lo)
+            elif lo is None and isinstance(hi, int) and hi < 0:
+                sub = z3.SubSeq(z, z3.IntVal(0), n + hi)
+            else:
+                a = _norm_bound(lo, n, 0)
+                b = _norm_bound(hi, n, n)
+                sub = z3.SubSeq(z, a, z3.If(b - a > 0, b - a, z3.IntVal(0)))
             td = _elem_td(interp, t)
             if td is None:
                 from .sorts import TypeDesc
                 td = TypeDesc('str') if z.sort() == z3.SeqSort(z3.StringSort()) else None
             if td is None:
                 raise Unsupported('slice of sequence with unknown element type')
-            return SeqV(interp.seq_of_base(z3.simplify(sub), td, path))
+            return SeqV(interp.seq_of_base(sub, td, path))
         if not t.blocks:
             return SeqV(SeqT())
         raise Unsupported('slice of a symbolic sequence')
@@ -630,11 +639,11 @@ def symbolic_set_len(interp, path, s):
         return n
     reg.add(key)
     empty = z3.EmptySet(z3.StringSort())
-    w1, w2, w3 = (z3.String(fresh_name('cw')) for _ in range(3))
-    path.assume(n >= 0)
-    path.assume((n == 0) == (s == empty))
-    path.assume(z3.Implies(n == 1, s == z3.SetAdd(empty, w1)))
-    path.assume(z3.Implies(n >= 2, z3.And(z3.IsMember(w2, s), z3.IsMember(w3, s), w2 != w3)))
+    w1, w2, w3 = (path.fresh_const('cw', z3.StringSort()) for _ in range(3))
+    path.define(n >= 0)
+    path.define((n == 0) == (s == empty))
+    path.define(z3.Implies(n == 1, s == z3.SetAdd(empty, w1)))
+    path.define(z3.Implies(n >= 2, z3.And(z3.IsMember(w2, s), z3.IsMember(w3, s), w2 != w3)))
     a, b = z3.String(fresh_name('ca')), z3.String(fresh_name('cb'))
     path.add_hyp([a, b], z3.Implies(z3.And(z3.IsMember(a, s), z3.IsMember(b, s), a != b), n >= 2), 'card>=2')
     path.add_hyp([a], z3.Implies(s == z3.SetAdd(empty, a), n == 1), 'card==1')
@@ -747,7 +756,7 @@ def _sorted(interp, path, args, kw):
         from .sorts import TypeDesc
         base = f(v.sym)
         # facts: same cardinality/emptiness; membership agrees (instantiated lazily by the engine)
-        path.assume((z3.Length(base) == 0) == (v.sym == z3.EmptySet(z3.StringSort())))
+        path.define((z3.Length(base) == 0) == (v.sym == z3.EmptySet(z3.StringSort())))
         return SeqV(interp.seq_of_base(base, TypeDesc('str'), path))
     t = seq_of(interp, SetV(concrete=list(v.concrete)) if isinstance(v, SetV) else v, path) \
         if not isinstance(v, SetV) else SeqT([LitB(v.concrete)])
@@ -988,7 +997,7 @@ def _s_split(interp, path, args, kw):
     f = uf(interp, f'py.split[{sep!r}]', z3.StringSort(), z3.SeqSort(z3.StringSort()))
     from .sorts import TypeDesc
     base = f(to_zstr(s))
-    path.assume(z3.Length(base) >= 1)
+    path.define(z3.Length(base) >= 1)
     hook = getattr(interp, 'split_axioms', None)
     if hook:
         hook(interp, path, sep, to_zstr(s), base)
@@ -1081,19 +1090,54 @@ def _s_strip(interp, path, args, kw, left=True, right=True):
         return mkstr(parts)
     cur = mkstr(parts)
     z = to_zstr(cur)
-    r = z3.String(fresh_name('strip'))
-    l_ = z3.String(fresh_name('ws'))
-    t_ = z3.String(fresh_name('ws'))
+    mode = 'strip' if (not done_l and not done_r) else ('lstrip' if not done_l else 'rstrip')
+    return mkstr([strip_term(interp, path, z, mode)])
+
+
+def strip_term(interp, path, z, mode, depth=0):
+    """str.strip / lstrip / rstrip as uninterpreted functions String -> String; every application gets the
+    instances of the defining facts (decomposition into whitespace + core) and of the derived facts that make
+    the usual obligations propositional."""
     ops._init_re()
-    path.assume(z == z3.Concat(l_ if not done_l else z3.StringVal(''), r, t_ if not done_r else z3.StringVal('')))
-    if not done_l:
-        path.assume(ops.all_ws(l_))
-        path.assume(z3.Or(r == z3.StringVal(''), z3.Not(z3.InRe(z3.SubString(r, 0, 1), ops.RE_WS))))
-    if not done_r:
-        path.assume(ops.all_ws(t_))
-        path.assume(z3.Or(r == z3.StringVal(''),
-                          z3.Not(z3.InRe(z3.SubString(r, z3.Length(r) - 1, 1), ops.RE_WS))))
-    return mkstr([r])
+    S = z3.StringSort()
+    f = uf(interp, f'py.{mode}', S, S)
+    r = f(z)
+    reg = path.__dict__.setdefault('_strip_terms', set())
+    key = (mode, z.get_id())
+    if key in reg:
+        return r
+    reg.add(key)
+    empty = z3.StringVal('')
+    first_ws = ops.ws_char(ops.first_char(z))
+    last_ws = ops.ws_char(ops.last_char(z))
+    r_first_ws = ops.ws_char(ops.first_char(r))
+    r_last_ws = ops.ws_char(ops.last_char(r))
+    path.define((r == empty) == ops.all_ws(z))
+    if mode == 'strip':
+        lead = uf(interp, 'py.strip.lead', S, S)(z)
+        trail = uf(interp, 'py.strip.trail', S, S)(z)
+        path.define(z == z3.Concat(lead, r, trail))
+        path.define(ops.all_ws(lead))
+        path.define(ops.all_ws(trail))
+        path.define(z3.Or(r == empty, z3.And(z3.Not(r_first_ws), z3.Not(r_last_ws))))
+        if depth == 0:
+            rs = strip_term(interp, path, z, 'rstrip', 1)
+            ls = strip_term(interp, path, z, 'lstrip', 1)
+            path.define(z3.Implies(z3.And(z3.Length(z) > 0, z3.Not(first_ws)), z3.And(lead == empty, r == rs)))
+            path.define(z3.Implies(z3.And(z3.Length(z) > 0, z3.Not(last_ws)), z3.And(trail == empty, r == ls)))
+    elif mode == 'rstrip':
+        trail = uf(interp, 'py.rstrip.trail', S, S)(z)
+        path.define(z == z3.Concat(r, trail))
+        path.define(ops.all_ws(trail))
+        path.define(z3.Or(r == empty, z3.Not(r_last_ws)))
+        path.define(z3.Implies(z3.And(z3.Length(z) > 0, z3.Not(last_ws)), r == z))
+    else:
+        lead = uf(interp, 'py.lstrip.lead', S, S)(z)
+        path.define(z == z3.Concat(lead, r))
+        path.define(ops.all_ws(lead))
+        path.define(z3.Or(r == empty, z3.Not(r_first_ws)))
+        path.define(z3.Implies(z3.And(z3.Length(z) > 0, z3.Not(first_ws)), r == z))
+    return r
 
 
 def _s_upper(interp, path, args, kw):
@@ -1115,7 +1159,7 @@ def _s_lower(interp, path, args, kw):
     # hexdigest() yields (DESIGN 2.7)
     hexre = z3.Star(z3.Union(z3.Range(z3.StringVal('0'), z3.StringVal('9')),
                              z3.Range(z3.StringVal('a'), z3.StringVal('f'))))
-    path.assume(z3.Implies(z3.InRe(z, hexre), r == z))
+    path.define(z3.Implies(z3.InRe(z, hexre), r == z))
     return mkstr([r])
 
 
@@ -1214,7 +1258,7 @@ def _l_pop(interp, path, args, kw):
             from .sorts import TypeDesc
             td = TypeDesc('str')
         last = interp.wrap_elem(td, z[n - 1])
-        lst.term = interp.seq_of_base(z3.simplify(z3.SubSeq(z, 0, n - 1)), td, path)
+        lst.term = interp.seq_of_base(z3.SubSeq(z, 0, n - 1), td, path)
         return last
     raise Unsupported('pop on symbolic list')
 
@@ -1496,7 +1540,7 @@ def _ospath(name):
             return mkstr([g(z)])
         g0 = uf(interp, 'os.path.splitext.root', z3.StringSort(), z3.StringSort())
         g1 = uf(interp, 'os.path.splitext.ext', z3.StringSort(), z3.StringSort())
-        path.assume(z3.Concat(g0(z), g1(z)) == z)
+        path.define(z3.Concat(g0(z), g1(z)) == z)
         return (mkstr([g0(z)]), mkstr([g1(z)]))
     return f
 
@@ -1515,7 +1559,7 @@ def _hashlib(alg):
             r = g(b.expr)
             hexre = z3.Star(z3.Union(z3.Range(z3.StringVal('0'), z3.StringVal('9')),
                                      z3.Range(z3.StringVal('a'), z3.StringVal('f'))))
-            path_.assume(z3.InRe(r, hexre))
+            path_.define(z3.InRe(r, hexre))
             return mkstr([r])
         o.handlers = {'hexdigest': hexdigest}
         return o
